@@ -271,7 +271,7 @@ CHECKS = {
         "third in quick) and generated 2-4 option combinations for both "
         "samplers; outcome must be rejected-up-front or completed with "
         "valid results; late exceptions and unbounded pool populations "
-        "(> 1e4 latent batches) are violations keyed by call site. Quick "
+        "(> 2e6 latent draws in one population) are violations keyed by call site. Quick "
         "~85 runs, thorough ~700.",
         "Iteration cap on every case; wall-clock backstop = inconclusive.",
         "DESIGN.md section 4, C20",
